@@ -66,6 +66,21 @@ pub fn worker_hold(dir: &str) -> i32 {
 	}
 }
 
+/// Whether nobody holds the advisory lock on `<dir>/LOCK` (probe through a separate open file
+/// description; the probe lock is released at once).
+fn lock_is_free(dir: &Path) -> bool {
+	use std::os::unix::io::AsRawFd;
+	let Ok(f) = std::fs::File::open(dir.join("LOCK")) else {
+		return true;
+	};
+	let fd = f.as_raw_fd();
+	let got = unsafe { libc::flock(fd, libc::LOCK_EX | libc::LOCK_NB) } == 0;
+	if got {
+		unsafe { libc::flock(fd, libc::LOCK_UN) };
+	}
+	got
+}
+
 struct ChildProc(Child);
 impl Drop for ChildProc {
 	fn drop(&mut self) {
@@ -149,9 +164,16 @@ pub fn run_seq(ops: &[Lop]) -> Result<Option<(String, String)>, String> {
 							w.tree = None;
 						}
 						w.drain();
-						// the Drop-spawned close awaits a timer: give the runtime real time
+						// the Drop-spawned close awaits timers: run the runtime until the directory lock
+						// has really been given back (bounded; no fixed sleep that a loaded machine
+						// could outlast)
 						let rt = w.rt.take().unwrap();
-						rt.block_on(async { tokio::time::sleep(std::time::Duration::from_millis(120)).await });
+						for _ in 0..400 {
+							rt.block_on(async { tokio::time::sleep(std::time::Duration::from_millis(25)).await });
+							if lock_is_free(&dir) {
+								break;
+							}
+						}
 						drop(rt);
 						owner = None;
 					}
